@@ -49,7 +49,9 @@ type Faults struct {
 	WriterOnce     bool `json:"writerOnce,omitempty"` // only that one write fails (default: sticky)
 	CallbackFailAt int  `json:"callbackFailAt"`
 	BreakAt        int  `json:"breakAt"`
-	ErrKind        int  `json:"errKind,omitempty"` // which well-known error the injected reader/writer error additionally wraps (see FaultErr)
+	CbErrKind      int  `json:"cbErrKind,omitempty"` // which value the failing callback returns (see CallbackErr)
+	IOKind         int  `json:"ioKind,omitempty"`    // 1: the reader also implements io.WriterTo and the writer io.StringWriter (code may take other paths for them)
+	ErrKind        int  `json:"errKind,omitempty"`   // which well-known error the injected reader/writer error additionally wraps (see FaultErr)
 }
 
 func NoFaults() Faults {
@@ -77,22 +79,23 @@ type Sched struct {
 }
 
 type Case struct {
-	Op       string    `json:"op"`    // output | walk | walkiter | mkdir | verify
-	Entry    string    `json:"entry"` // md | root | alias (deprecated name of the same family)
-	Doc      []byte    `json:"doc,omitempty"`
-	Root     *string   `json:"root,omitempty"` // root name for From-Root entries (nil = pass a nil node)
-	Prog     []AddStep `json:"prog,omitempty"`
-	UseSub   int       `json:"useSub,omitempty"`   // >0: pass node[UseSub] (a non-root) instead of the root
-	PreOps   []string  `json:"preOps,omitempty"`   // From-Root only: operations run first on the SAME node tree, results ignored
-	LateProg []AddStep `json:"lateProg,omitempty"` // From-Root walkiter only: Add calls made after the iterator was created and before it is ranged over
-	MidProg  []AddStep `json:"midProg,omitempty"`  // From-Root only: Add calls made after the PreOps and before the operation under test
-	Opts     Opts      `json:"opts"`
-	FS       *FSSpec   `json:"fs,omitempty"`
-	Faults   Faults    `json:"faults"`
-	Cancel   Cancel    `json:"cancel"`
-	Sched    Sched     `json:"sched"`
-	Leak     bool      `json:"leak,omitempty"` // run the goroutine-leak scan after return
-	Twice    bool      `json:"twice,omitempty"`
+	Op         string    `json:"op"`    // output | walk | walkiter | mkdir | verify
+	Entry      string    `json:"entry"` // md | root | alias (deprecated name of the same family)
+	Doc        []byte    `json:"doc,omitempty"`
+	Root       *string   `json:"root,omitempty"` // root name for From-Root entries (nil = pass a nil node)
+	Prog       []AddStep `json:"prog,omitempty"`
+	UseSub     int       `json:"useSub,omitempty"`     // >0: pass node[UseSub] (a non-root) instead of the root
+	PreOps     []string  `json:"preOps,omitempty"`     // From-Root only: operations run first on the SAME node tree, results ignored
+	LateProg   []AddStep `json:"lateProg,omitempty"`   // From-Root walkiter only: Add calls made after the iterator was created and before it is ranged over
+	MidProg    []AddStep `json:"midProg,omitempty"`    // From-Root only: Add calls made after the PreOps and before the operation under test
+	RangeTwice bool      `json:"rangeTwice,omitempty"` // walkiter: the same iterator value is ranged over a second time
+	Opts       Opts      `json:"opts"`
+	FS         *FSSpec   `json:"fs,omitempty"`
+	Faults     Faults    `json:"faults"`
+	Cancel     Cancel    `json:"cancel"`
+	Sched      Sched     `json:"sched"`
+	Leak       bool      `json:"leak,omitempty"` // run the goroutine-leak scan after return
+	Twice      bool      `json:"twice,omitempty"`
 }
 
 func NewCase(op, entry string) Case {
@@ -122,28 +125,30 @@ type Visit struct {
 }
 
 type Result struct {
-	Err           ErrInfo           `json:"err"`
-	Out           []byte            `json:"out,omitempty"`    // bytes accepted by the writer
-	Color         []byte            `json:"color,omitempty"`  // bytes written to color.Output
-	Writes        int               `json:"writes,omitempty"` // Write calls seen
-	WriteFailed   bool              `json:"writeFailed,omitempty"`
-	Offered       int               `json:"offered,omitempty"` // bytes offered to the writer
-	ReadBytes     int               `json:"readBytes,omitempty"`
-	LateReadBytes int               `json:"lateReadBytes,omitempty"` // bytes the reader was asked for after the call had returned
-	Visits        []Visit           `json:"visits,omitempty"`
-	VisitsAfter   int               `json:"visitsAfter,omitempty"` // callbacks after the stop position
-	Before        map[string]string `json:"before,omitempty"`
-	After         map[string]string `json:"after,omitempty"`
-	Panic         string            `json:"panic,omitempty"`
-	Hang          string            `json:"hang,omitempty"`
-	Leaked        string            `json:"leaked,omitempty"`
-	Race          string            `json:"race,omitempty"`
-	Died          string            `json:"died,omitempty"` // worker process died (stderr tail)
-	Reached       map[string]int    `json:"reached,omitempty"`
-	CtxCancelled  bool              `json:"ctxCancelled,omitempty"` // the context was cancelled before the call returned
-	ElapsedUs     int64             `json:"elapsedUs,omitempty"`
-	Second        *Result           `json:"second,omitempty"` // result of the repeated call when Twice
-	Infra         string            `json:"infra,omitempty"`  // harness-level problem (never a violation)
+	Err             ErrInfo           `json:"err"`
+	Out             []byte            `json:"out,omitempty"`    // bytes accepted by the writer
+	Color           []byte            `json:"color,omitempty"`  // bytes written to color.Output
+	Writes          int               `json:"writes,omitempty"` // Write calls seen
+	WriteFailed     bool              `json:"writeFailed,omitempty"`
+	Offered         int               `json:"offered,omitempty"` // bytes offered to the writer
+	ReadBytes       int               `json:"readBytes,omitempty"`
+	LateReadBytes   int               `json:"lateReadBytes,omitempty"`   // bytes the reader was asked for after the call had returned
+	CloseDuringRead bool              `json:"closeDuringRead,omitempty"` // the reader's Close was called while one of its Reads was pending
+	Visits          []Visit           `json:"visits,omitempty"`
+	VisitsAfter     int               `json:"visitsAfter,omitempty"`  // callbacks after the stop position
+	SecondVisits    int               `json:"secondVisits,omitempty"` // visits of the second range over the same iterator value (RangeTwice)
+	Before          map[string]string `json:"before,omitempty"`
+	After           map[string]string `json:"after,omitempty"`
+	Panic           string            `json:"panic,omitempty"`
+	Hang            string            `json:"hang,omitempty"`
+	Leaked          string            `json:"leaked,omitempty"`
+	Race            string            `json:"race,omitempty"`
+	Died            string            `json:"died,omitempty"` // worker process died (stderr tail)
+	Reached         map[string]int    `json:"reached,omitempty"`
+	CtxCancelled    bool              `json:"ctxCancelled,omitempty"` // the context was cancelled before the call returned
+	ElapsedUs       int64             `json:"elapsedUs,omitempty"`
+	Second          *Result           `json:"second,omitempty"` // result of the repeated call when Twice
+	Infra           string            `json:"infra,omitempty"`  // harness-level problem (never a violation)
 }
 
 // Bad reports process-level failures that are violations for every property.
